@@ -85,6 +85,8 @@ func toScalar(ex *exec.Exec, v exec.Value, sort string) *smt.Term {
 		return x
 	case exec.Opaque:
 		return x.T
+	case NilableOpaque:
+		return x.T
 	}
 	if isNil, known := exec.IsNil(v); known && isNil && sort == smt.Val {
 		return ex.C.Var("nil$val", smt.Val)
@@ -200,13 +202,50 @@ func (f *SymFunc) EqualTo(ex *exec.Exec, other exec.Value) *smt.Term {
 	return nil
 }
 
-// symVal makes an arbitrary value of a Go type: a scalar term for basic types, else an opaque value.
+// NilableOpaque is an arbitrary value of a pointer / interface / func / chan / map / slice type:
+// opaque, but it may be nil (a symbolic Boolean).
+type NilableOpaque struct {
+	T   *smt.Term
+	Nil *smt.Term
+}
+
+func (n NilableOpaque) EqualTo(ex *exec.Exec, other exec.Value) *smt.Term {
+	c := ex.C
+	if isNil, known := exec.IsNil(other); known && isNil {
+		return n.Nil
+	}
+	switch o := other.(type) {
+	case NilableOpaque:
+		return c.And(c.Eq(n.T, o.T), c.Eq(n.Nil, o.Nil))
+	case exec.Opaque:
+		return c.Eq(n.T, o.T)
+	}
+	// some concrete reference (e.g. the mock itself): equal only if the user value happens to alias it
+	return c.And(c.Not(n.Nil), c.Fresh("user_value_aliases_a_known_object", smt.Bool))
+}
+
+func nilable(t types.Type) bool {
+	if _, isTP := t.(*types.TypeParam); isTP {
+		return false
+	}
+	switch t.Underlying().(type) {
+	case *types.Pointer, *types.Interface, *types.Signature, *types.Chan, *types.Map, *types.Slice:
+		return true
+	}
+	return false
+}
+
+// symVal makes an arbitrary value of a Go type: a scalar term for basic types, else an opaque value
+// (possibly nil for reference types).
 func symVal(ex *exec.Exec, name string, t types.Type) exec.Value {
 	so := fieldSort(t)
 	if _, isTP := t.(*types.TypeParam); isTP {
 		so = smt.Val
 	}
 	v := ex.C.Fresh(name, so)
+	if so == smt.Val && nilable(t) {
+		return NilableOpaque{T: v, Nil: ex.C.Fresh(name+"_isnil", smt.Bool)}
+	}
 	return fromScalar(v)
 }
 
